@@ -251,6 +251,11 @@ class C03(Check):
                 outside = False
             except model.Discard:
                 outside = True
+            if not outside and isinstance(snap.err, ValueError) and 'truth value of an array' in str(snap.err) and 'npvec' in repr(prog):
+                # comparing numpy arrays with != / == has no truth value: distinct_until_changed (or a key comparison) on values that
+                # hold the numpy vector state is the user's type error (section 9, item 13); the model only sees it when ITS copies
+                # of the arrays meet in a comparison, which depends on list lengths
+                outside = True
             if outside:
                 out.observed['runs_ending_in_a_domain_error'] += 1
             else:
